@@ -23,7 +23,7 @@ RD = 'tests/data/test-read-dwarf/'
 ABIDW_INPUTS = {'pr18828': RD + 'test11-pr18828.so', 'pr18844': RD + 'test12-pr18844.so', 'pr18818-clang': RD + 'test9-pr18818-clang.so',
                 'boost_iostreams': RD + 'PR22015-libboost_iostreams.so', 'libaaudio': RD + 'test-libaaudio.so', 'pr18894': RD + 'test13-pr18894.so',
                 # pool libraries built to make comparators tie: same-named different types in two translation units, anonymous types, one source compiled twice
-                'ties': '@ties_v1', 'twice': '@twice_v0', 'cxx-pool': '@cxx_v2'}
+                'ties': '@ties_v1', 'twice': '@twice_v0', 'cxx-pool': '@cxx_v2', 'emptymod': '@emptymod_v0', 'kmod': '@ktree_v1/modules/fakemod.ko'}
 ABIDW_OPTS = {'default': [], 'no-locs': ['--no-show-locs'], 'annotate': ['--annotate'], 'all-types': ['--load-all-types'], 'hash-ids': ['--type-id-style', 'hash'],
               'no-corpus-path': ['--no-corpus-path', '--no-comp-dir-path'], 'short-locs': ['--short-locs']}
 ABIDIFF_PAIRS = {'rvalueref': ('tests/data/test-diff-filter/test30-pr18904-rvalueref-liba.so', 'tests/data/test-diff-filter/test30-pr18904-rvalueref-libb.so'),
@@ -31,6 +31,7 @@ ABIDIFF_PAIRS = {'rvalueref': ('tests/data/test-diff-filter/test30-pr18904-rvalu
                  'struct-change': ('tests/data/test-diff-filter/libtest32-struct-change-v0.so', 'tests/data/test-diff-filter/libtest32-struct-change-v1.so'),
                  'ppc64-aliases': ('tests/data/test-diff-dwarf/libtest36-ppc64-aliases-v0.so', 'tests/data/test-diff-dwarf/libtest36-ppc64-aliases-v1.so'),
                  'pr18818': (RD + 'test9-pr18818-clang.so', RD + 'test10-pr18818-gcc.so'),
+                 'emptymod': ('@emptymod_v0', '@emptymod_v1'),
                  'cxx-pool': ('@cxx_v0', '@cxx_v1'), 'cxx-pool-rev': ('@cxx_v2', '@cxx_v0'),
                  'ties': ('@ties_v0', '@ties_v1'), 'ties-rev': ('@ties_v1', '@ties_v0'), 'twice-ties': ('@twice_v0', '@ties_v0')}
 ABIDIFF_OPTS = {'default': [], 'redundant': ['--redundant'], 'leaf': ['--leaf-changes-only'], 'harmless': ['--harmless'], 'impacted': ['--impacted-interfaces', '--leaf-changes-only'],
@@ -44,10 +45,10 @@ def item_list(tier):
         for n, o in (('pr18828', 'default'), ('pr18844', 'default'), ('pr18818-clang', 'annotate'), ('boost_iostreams', 'all-types'), ('libaaudio', 'hash-ids'),
                      ('pr18828', 'no-locs'), ('pr18894', 'default')):
             items.append(('abidw', n, o))
-        for n, o in (('ties', 'default'), ('ties', 'all-types'), ('twice', 'all-types'), ('ties', 'annotate')):
+        for n, o in (('ties', 'default'), ('ties', 'all-types'), ('twice', 'all-types'), ('ties', 'annotate'), ('emptymod', 'default'), ('kmod', 'default')):
             items.append(('abidw', n, o))
         for n, o in (('rvalueref', 'default'), ('lttng', 'default'), ('struct-change', 'redundant'), ('ppc64-aliases', 'harmless'), ('pr18818', 'leaf'), ('rvalueref', 'impacted'),
-                     ('cxx-pool', 'impacted'), ('cxx-pool-rev', 'impacted'), ('cxx-pool', 'default'),
+                     ('cxx-pool', 'impacted'), ('cxx-pool-rev', 'impacted'), ('cxx-pool', 'default'), ('emptymod', 'default'),
                      ('ties', 'unreachable'), ('ties-rev', 'unreachable-leaf'), ('ties', 'unreachable-all'), ('twice-ties', 'unreachable')):
             items.append(('abidiff', n, o))
         for i in range(6):
@@ -72,7 +73,8 @@ def make_items(ctx, only=None):
             continue
         it = {'name': name, 'tool': tool}
         if tool == 'abidw':
-            p = ctx.libs[ABIDW_INPUTS[n][1:]] if ABIDW_INPUTS[n].startswith('@') else os.path.join(C.REPO, ABIDW_INPUTS[n])
+            ref_ = ABIDW_INPUTS[n]
+            p = (ctx.libs[ref_[1:].split('/')[0]] + ref_[1 + len(ref_[1:].split('/')[0]):]) if ref_.startswith('@') else os.path.join(C.REPO, ref_)
             if not os.path.exists(p) or os.path.getsize(p) == 0:
                 continue
             it['argv'] = ['abidw'] + ABIDW_OPTS[o] + [p]
